@@ -19,19 +19,22 @@ RULE = ("volumes: cylinders and boxes with dimensions log-uniform over 10..1e4 m
         "on random tapes plus injected 0/1-adjacent and threshold-adjacent uniforms; exit points for vertices inside "
         "the volume x directions {isotropic, axis-parallel (+-x,+-y,+-z), in-plane, vertical, grazing the cylinder "
         "side / box edges}; whole create_event calls with energies 1e3..1e12 GeV, both interaction models, both Earth "
-        "models, shadow on/off, flavour ratios and both sources, secondaries on/off; list generators of 0..6 events "
+        "models, shadow on/off, flavour ratios and both sources, secondaries on/off; shadowed generators fed by a "
+        "counting, non-constant energy callable at energies where throws are rejected; list generators of 0..6 events "
         "with random create/set-count/query histories; a case is non-trivial when a direction is not degenerate / a "
         "draw decides a branch; distinct = distinct request lines")
 LEVEL_TEXT = ("theorems over R: radius inverse-CDF law, z/azimuth/box affine laws, unit direction, flavour threshold "
               "intervals, box exit points on the boundary / collinear / bracketing the vertex (slab method incl. "
-              "axis-parallel directions), both cylinder side candidates on the side surface and on the line, cap "
+              "axis-parallel directions) and totality of the box exit, shadow acceptance as a measure statement, both cylinder side candidates on the side surface and on the line, cap "
               "override on the cap and on the line, weight formulas, count = number of passes by induction over the "
               "tape, list-generator cycle/stop/count; model and implementation agree on every sampled tape")
 LEVEL_NOTE = ("floating-point rounding not modelled (rel 1e-9, exit points abs 1e-7*size); numpy.random variates are the "
               "tape; C13_vertex_uniform_partial / C13_isotropic_partial prove the marginal inverse-CDF laws (measure of "
               "{u | r(u) <= rho} = (rho/dr)^2, cos(theta) affine in u, z and box coordinates affine) but not the 3-D "
               "change of variables to volume / solid-angle measure; C13_cyl_exit_brackets_vertex_partial covers the "
-              "generic position (non-zero x-direction, side points inside the z-range), grazing tangency excluded; the "
+              "classification of returned points for any input; C13_cyl_exit_total_generic proves totality + strict bracketing + "
+              "collinearity for a vertex strictly inside and d_x != 0 (the d_x = 0 branch, boundary vertices and grazing "
+              "tangency are left to the correspondence run); C13_box_exit_total is proved at full strength; the "
               "survival weight inherits the exit-node ambiguity of slant_depth (C15): the run accepts either value and "
               "skips shadow decisions within 1e-3 of the threshold; KS tests only in the thorough search (p=1e-6)")
 ASSUMPTIONS = ["np.random.uniform(low, high) = low + (high-low)*u elementwise", "np.linalg.norm, np.sum by specification"]
@@ -423,6 +426,23 @@ def check_exit(run, vol, v, d, kind):
         run.fail_input("exit-points", inp, observed=res, what="; ".join(bad))
 
 
+def check_exit_inputs(run, vol, v, d):
+    """integer-valued dimensions / vertex / direction given as ints, tuples, integer arrays: same exit points as floats"""
+    voli = (vol[0],) + tuple(int(x) for x in vol[1:])
+    vi, di = [int(x) for x in v], [int(x) for x in d]
+    ref = exit_impl(make_gen((vol[0],) + tuple(float(x) for x in voli[1:])), base_particle([float(x) for x in vi], [float(x) for x in di]))
+    for cls, mk in (("list_int", list), ("tuple_int", tuple), ("array_int64", lambda z: np.array(z, dtype=np.int64))):
+        try:
+            got = exit_impl(make_gen(voli), base_particle(mk(vi), mk(di)))
+        except Exception as e:      # noqa: BLE001
+            got = "%s: %s" % (type(e).__name__, e)
+        same = (got is None and ref is None) or (isinstance(got, list) and ref is not None and fw.all_close(got, ref, 1e-12, 0.0))
+        if not same:
+            run.fail_input("exit-input", {"volume": list(voli), "vertex": vi, "direction": di, "class": cls}, observed=got,
+                           expected=ref, what="exit points for integer-typed %s input differ from the float64 call" % cls)
+            return
+
+
 def check_samplers(run, vol):
     rng = run.rng
     gen = make_gen(vol)
@@ -518,6 +538,72 @@ def check_event(run, cfg):
                        what="; ".join(bad))
 
 
+def check_fresh_draws(run, cfg, energies, inject=None):
+    """every throw - rejected ones included - is a fresh neutrino: one call of the energy source, one particle type,
+    one vertex and one direction per pass, `count` advancing by the same number; the returned particle carries the
+    energy / type of the LAST pass.  Energy source: a counting callable stepping through `energies`."""
+    import pyrex.particle as pp
+    cfg = dict(cfg, sec=False)          # no Poisson draws: the recorded uniforms replay exactly
+    calls = {"energy": 0, "type": 0, "vertex": 0, "direction": 0, "weights": 0}
+    last = {}
+
+    def source():
+        e = energies[calls["energy"] % len(energies)]
+        calls["energy"] += 1
+        last["energy"] = e
+        return e
+    gen = make_gen(cfg["vol"], source, shadow=cfg["shadow"], flavor_ratio=cfg["ratio"], source=cfg["source"],
+                   interaction_model=c14.model_cls(cfg["model"]), earth_model=earths()[cfg["earth"]])
+
+    def wrap(name, key, keep=None):
+        orig = getattr(gen, name)
+
+        def f(*a):
+            calls[key] += 1
+            r = orig(*a)
+            if keep:
+                last[keep] = r
+            return r
+        setattr(gen, name, f)
+    wrap("get_particle_type", "type", "type"); wrap("get_vertex", "vertex", "vertex")
+    wrap("get_direction", "direction", "direction"); wrap("get_weights", "weights")
+    tape = Tape(run.rng, "nominal", inject)
+    old = pp.GQRSInteraction.include_secondaries
+    ev, err = None, None
+    c0 = gen.count
+    try:
+        pp.GQRSInteraction.include_secondaries = False
+        with tape:
+            try:
+                ev = gen.create_event()
+            except (ValueError, TypeError, OverflowError, RecursionError) as e:
+                err = "%s: %s" % (type(e).__name__, e)
+    finally:
+        pp.GQRSInteraction.include_secondaries = old
+    inp = {"config": {k: (list(cfg[k]) if isinstance(cfg[k], tuple) else cfg[k]) for k in cfg if k != "E"},
+           "energies": list(energies), "uniforms": list(tape.us)}
+    if ev is None:
+        if "OverflowError" not in (err or ""):
+            run.fail_input("fresh-draws", inp, observed=err, what="create_event raised")
+        return 0
+    adv = gen.count - c0
+    p = ev.roots[0]
+    bad = []
+    for k in ("energy", "type", "vertex", "direction", "weights"):
+        if calls[k] != adv:
+            bad.append("count advanced by %d but %s was drawn %d time(s)" % (adv, k, calls[k]))
+    if float(p.energy) != float(last["energy"]):
+        bad.append("returned energy %r is not the energy drawn for the accepted throw (%r)" % (float(p.energy), float(last["energy"])))
+    if p.id != last.get("type"):
+        bad.append("returned particle type is not the one drawn for the accepted throw")
+    if not np.array_equal(np.asarray(p.vertex), np.asarray(last["vertex"])):
+        bad.append("returned vertex is not the one drawn for the accepted throw")
+    if bad:
+        run.fail_input("fresh-draws", inp, observed={"count_advance": adv, "calls": dict(calls), "energy": float(p.energy)},
+                       what="; ".join(bad))
+    return adv
+
+
 def check_list(run, n, loop, k):
     g = G()
     import pyrex.particle as pp
@@ -578,9 +664,31 @@ def search(run, deep):
         run.case(("oracle-exit", vol, tuple(v), tuple(d)))
         check_exit(run, vol, v, d, kind)
     for i in range(40 * mult):
+        vol = draw_volume(rng)
+        vol = (vol[0],) + tuple(float(max(2, round(x))) for x in vol[1:])
+        v = [float(round(x)) for x in inside_vertex(rng, vol)]
+        if vol[0] == "cyl" and v[0] ** 2 + v[1] ** 2 > vol[1] ** 2:
+            v[0], v[1] = 0.0, 0.0
+        d = [float(rng.randrange(-4, 5)) for _ in range(3)]
+        if not any(d):
+            d = [1.0, 0.0, -1.0]
+        run.case(("oracle-exit-input", vol, tuple(v), tuple(d)))
+        check_exit_inputs(run, vol, v, d)
+    for i in range(40 * mult):
         cfg = draw_event_cfg(run)
         run.case(("oracle-event", str(cfg)))
         check_event(run, cfg)
+    # fresh energy / type / vertex / direction for every throw, rejected ones included (shadowing at energies where
+    # the Earth is opaque, so that rejections do occur)
+    rejected = 0
+    for i in range(25 * mult):
+        cfg = draw_event_cfg(run)
+        cfg["shadow"] = i % 5 != 4
+        energies = [10 ** rng.uniform(9.5, 12) if rng.random() < 0.7 else 10 ** rng.uniform(3, 9) for _ in range(7)]
+        run.case(("oracle-fresh-draws", str(cfg), tuple(energies)))
+        adv = check_fresh_draws(run, cfg, energies)
+        rejected += max(0, adv - 1)
+    run.count("oracle_fresh_draws_rejected_passes", rejected)
     for i in range(20 * mult):
         n, loop, k = rng.randint(1, 6), rng.random() < 0.5, rng.randint(1, 25)
         run.case(("oracle-list", n, loop, k))
@@ -595,8 +703,14 @@ def replay(run, data):
     k = data.get("kind")
     if k == "exit-points":
         check_exit(run, tuple(i["volume"]), list(i["vertex"]), list(i["direction"]), "iso")
+    elif k == "exit-input":
+        check_exit_inputs(run, tuple(i["volume"]), i["vertex"], i["direction"])
     elif k == "list":
         check_list(run, i["n"], i["loop"], i["calls"])
+    elif k == "fresh-draws":
+        cfg = dict(i["config"])
+        cfg["vol"] = tuple(cfg["vol"]); cfg["ratio"] = tuple(cfg["ratio"]); cfg["E"] = i["energies"][0]
+        check_fresh_draws(run, cfg, i["energies"], inject=list(i["uniforms"]))
     elif k == "event":
         cfg = dict(i["config"])
         cfg["vol"] = tuple(cfg["vol"]); cfg["ratio"] = tuple(cfg["ratio"])
